@@ -220,6 +220,27 @@ def _is_arr(o):
 _UFUNC_UNARY = {"log": "LOG", "exp": "EXP", "sqrt": "SQRT", "sin": "SIN", "cos": "COS"}
 
 
+def _flags(*xs):
+    """'is finite' flags carried by operands (symx.symnp.FinCell)"""
+    out = []
+    for x in xs:
+        f = getattr(x, "flag", None)
+        if f is not None and isinstance(x, SN):
+            out.append(f.e if isinstance(f, SB) else z3.BoolVal(bool(f)))
+    return out
+
+
+FINCELL = [None]     # set by symx.symnp: constructor of a flagged cell
+
+
+def _taint(res, *operands):
+    """arithmetic on a possibly non-finite cell gives a possibly non-finite cell"""
+    fl = _flags(*operands)
+    if not fl or FINCELL[0] is None:
+        return res
+    return FINCELL[0](res.e, SB(z3.And(fl) if len(fl) > 1 else fl[0]))
+
+
 class SN:
     """symbolic number (z3 Int or Real term)"""
     __slots__ = ("e",)
@@ -256,7 +277,7 @@ class SN:
         except TypeError:
             return NotImplemented
         a, b = _coerce(self.e, b)
-        return SN(f(b, a) if swap else f(a, b))
+        return _taint(SN(f(b, a) if swap else f(a, b)), self, o)
 
     def __add__(self, o): return self._bin(o, lambda a, b: a + b)
     def __radd__(self, o): return self._bin(o, lambda a, b: a + b, True)
@@ -264,19 +285,19 @@ class SN:
     def __rsub__(self, o): return self._bin(o, lambda a, b: a - b, True)
     def __mul__(self, o): return self._bin(o, lambda a, b: a * b)
     def __rmul__(self, o): return self._bin(o, lambda a, b: a * b, True)
-    def __neg__(self): return SN(-self.e)
+    def __neg__(self): return _taint(SN(-self.e), self)
     def __pos__(self): return self
-    def __abs__(self): return SN(z3.If(self.e >= 0, self.e, -self.e))
+    def __abs__(self): return _taint(SN(z3.If(self.e >= 0, self.e, -self.e)), self)
 
     def __truediv__(self, o):
         if _is_arr(o):
             return NotImplemented
-        return SN(_div(self.e, lift(o)))
+        return _taint(SN(_div(self.e, lift(o))), self, o)
 
     def __rtruediv__(self, o):
         if _is_arr(o):
             return NotImplemented
-        return SN(_div(lift(o), self.e))
+        return _taint(SN(_div(lift(o), self.e)), self, o)
 
     def __floordiv__(self, o):
         a, b = self.e, lift(o)
@@ -332,6 +353,11 @@ class SN:
         except TypeError:
             return NotImplemented
         a, b = _coerce(self.e, b)
+        fl = _flags(self, o)
+        if fl:
+            # an operand may be non-finite (NaN: every ordering / equality comparison is False; +-inf: either way): when its
+            # 'finite' flag does not hold the outcome is an unconstrained Boolean, which covers all of those
+            return SB(z3.If(z3.And(fl) if len(fl) > 1 else fl[0], f(a, b), fresh("bool", "nonfinite_cmp").e))
         return SB(f(a, b))
 
     def __lt__(self, o): return self._cmp(o, lambda a, b: a < b)
